@@ -28,6 +28,12 @@ struct Spec {
     /// nonces come from the k-th pair of a preprocess(k+1) batch instead of commit()
     #[serde(default)]
     batch_pair: u8,
+    /// message of this many bytes instead of the alphabet entry (0 = alphabet)
+    #[serde(default)]
+    msg_len: usize,
+    /// take the LAST `last_signers` participants as signers instead of the mask (0 = mask)
+    #[serde(default)]
+    last_signers: u16,
 }
 
 #[derive(Serialize, Deserialize, Clone, Debug)]
@@ -89,7 +95,7 @@ impl Prop for C02 {
                                 }
                                 let msgs: Vec<usize> = if (n, t) == (2, 2) && idkind == IdKind::Seq { (0..11).collect() } else { vec![mr % 11] };
                                 for m in msgs {
-                                    specs.push(Spec { n, t, idkind, src, signers: s, msg: m, seed: format!("s{seed}.{sd}"), batch_pair: if mr % 4 == 3 { 1 + (mr % 3) as u8 } else { 0 } });
+                                    specs.push(Spec { n, t, idkind, src, signers: s, msg: m, seed: format!("s{seed}.{sd}"), batch_pair: if mr % 4 == 3 { 1 + (mr % 3) as u8 } else { 0 }, msg_len: 0, last_signers: 0 });
                                 }
                                 mr += 1;
                             }
@@ -97,6 +103,12 @@ impl Prop for C02 {
                     }
                 }
             }
+            // long messages (past every internal buffer one might think of) and a wide signer set
+            for len in [417usize, 513, 5000, 70000] {
+                specs.push(Spec { n: 3, t: 2, idkind: IdKind::U16x, src: KeySrc::Dealer, signers: 0b101, msg: 0, seed: format!("s{seed}.0"), batch_pair: 0, msg_len: len, last_signers: 0 });
+            }
+            let wide = if suite == "ed448" { tier.pick(12u16, 30u16) } else { tier.pick(40u16, 100u16) };
+            specs.push(Spec { n: 300, t: 2, idkind: IdKind::Seq, src: KeySrc::Dealer, signers: 0, msg: 2, seed: format!("s{seed}.0"), batch_pair: 0, msg_len: 0, last_signers: wide });
             for chunk in specs.chunks(10) {
                 out.push(serde_json::to_value(Case::Sessions { suite: suite.to_string(), specs: chunk.to_vec() }).unwrap());
             }
@@ -131,8 +143,8 @@ impl Prop for C02 {
 
 fn transcript<C: Suite>(sp: &Spec) -> Result<Value, String> {
     let grp = cached_group::<C>(sp.src, sp.n, sp.t, sp.idkind, &sp.seed)?;
-    let s = pick::<C>(&grp.ids, sp.signers);
-    let m = message(sp.msg);
+    let s = if sp.last_signers > 0 { grp.ids.iter().rev().take(sp.last_signers as usize).rev().copied().collect() } else { pick::<C>(&grp.ids, sp.signers) };
+    let m = if sp.msg_len > 0 { (0..sp.msg_len).map(|i| (i * 31 + 7) as u8).collect() } else { message(sp.msg) };
     let mut nonces = BTreeMap::new();
     let mut comms = BTreeMap::new();
     let mut randomness = serde_json::Map::new();
